@@ -40,6 +40,7 @@ type frame struct {
 	loops     map[*ssa.BasicBlock]int
 	phitmp    []Value
 	depth     int
+	skipPhis  bool
 }
 
 func (w *World) info(fn *ssa.Function) *fnInfo {
@@ -287,7 +288,16 @@ func (m *Machine) runFrame(fr *frame) {
 		instrs := fr.block.Instrs
 		i := 0
 		// parallel phi assignment
-		if _, ok := instrs[0].(*ssa.Phi); ok {
+		if fr.skipPhis {
+			// the phis were set by if-conversion
+			fr.skipPhis = false
+			for i < len(instrs) {
+				if _, ok := instrs[i].(*ssa.Phi); !ok {
+					break
+				}
+				i++
+			}
+		} else if _, ok := instrs[0].(*ssa.Phi); ok {
 			pi := slices.Index(fr.block.Preds, fr.prev)
 			fr.phitmp = fr.phitmp[:0]
 			for i < len(instrs) {
@@ -489,6 +499,11 @@ func (m *Machine) visit(fr *frame, instr ssa.Instruction) bool {
 		t, ok := c.(T)
 		if !ok {
 			m.unsupported("branch on %s", describe(c))
+		}
+		if !t.IsConst() && m.inPath && !m.Conf.ConcreteSet && !m.Conf.NoIfConv {
+			if handled, finished := m.tryIfConvert(fr, t); handled {
+				return finished
+			}
 		}
 		succ := 1
 		if m.Decide(t) {
